@@ -236,11 +236,35 @@ def expected_counter(inner):
     return {tuple(int(x) for x in c): int(m) for c, m in inner}
 
 
+def leg_flag_lies(leg, path='leg'):
+    """cached claims of a leg that are false: sorted => charges lexsorted (LegCharge.is_sorted order), bunched => no equal
+    neighbouring charges; incoming legs of pipes recursively.  Flags are compared as implications only."""
+    out = []
+    ch = np.asarray(leg.charges)
+    if leg.sorted and ch.shape[0] > 1 and ch.shape[1] > 0:
+        if not np.array_equal(np.lexsort(ch.T), np.arange(ch.shape[0])):
+            out.append('%s claims sorted, charges %s' % (path, ch.tolist()))
+    if leg.bunched and ch.shape[0] > 1:
+        if np.any(np.all(ch[1:] == ch[:-1], axis=1)):
+            out.append('%s claims bunched, charges %s' % (path, ch.tolist()))
+    if hasattr(leg, 'legs'):
+        for k, sub in enumerate(leg.legs):
+            out += leg_flag_lies(sub, '%s.legs[%d]' % (path, k))
+    return out
+
+
 def _sane(X, name):
+    from tenpy.tools.optimization import temporary_level
     try:
         X.test_sanity()
+        with temporary_level(0):      # level 'none' also verifies the cached sorted / bunched flags of the legs
+            X.test_sanity()
     except Exception as e:
         raise Viol('sanity-' + name, repr(e))
+    for k, leg in enumerate(X.legs):
+        lies = leg_flag_lies(leg, '%s.legs[%d]' % (name, k))
+        if lies:
+            raise Viol('leg-flags', '; '.join(lies))
     for b in X._data:
         if not np.all(np.isfinite(b)):
             raise Viol('nan', name)
